@@ -2,7 +2,9 @@
    under the representation maps of Proofs/BrokerBridge.v, so that the component theorems (Props/C06_qos.v,
    Props/C08.v, Props/C04.v ...) speak about the broker LTS of Broker/Model.v.
    This file holds ONLY statements, each closed by `exact <lemma>` and followed by Print Assumptions, plus
-   vm_compute Examples (non-vacuity, the necessity of each hypothesis, and the two DISAGREEMENTS found). *)
+   vm_compute Examples (non-vacuity, the necessity of each hypothesis, the two former disagreements of routing - the
+   empty routing key and the malformed topic pattern, on which the broker model and the code AGREE now - and the one
+   disagreement left, D3 of the message store). *)
 From Coq Require Import String List NArith ZArith Bool.
 Import ListNotations.
 From GMQ Require Broker.Model Data.gen.QosGen Data.Qos.
@@ -146,64 +148,76 @@ Theorem Bridge_words : forall s, s <> "" ->
 Proof. exact (fun s H => conj (bridge_words s H) (bridge_words_spec s H)). Qed.
 Print Assumptions Bridge_words.
 
+(* the broker model's [topic_words] (the empty string has no words) is topicWords and spec_words on EVERY string *)
+Theorem Bridge_topic_words : forall s,
+  map bytes_of (Model.topic_words s) = Topic.topic_words (bytes_of s) /\
+  map bytes_of (Model.topic_words s) = Spec.spec_words (bytes_of s).
+Proof. exact (fun s => conj (bridge_topic_words s) (bridge_topic_words_spec s)). Qed.
+Print Assumptions Bridge_topic_words.
+
 (* the fuel of the broker model's backtracking matcher suffices (any fuel above |p| + |k| does) *)
 Theorem Bridge_topic_fuel : forall f p k, (List.length p + List.length k < f)%nat ->
   Model.topic_match f p k = RouteTopicProofs.tm string Model.seqb "*" "#" p k.
 Proof. exact model_topic_match_fuel. Qed.
 Print Assumptions Bridge_topic_fuel.
 
-(* for ALL strings the broker model's test is matchTopicWords (the row algorithm) on the Split of both *)
-Theorem Bridge_topic_matches_split : forall pat key,
-  Model.topic_matches pat key =
-  Topic.topic_match_bytes (Topic.split_dots_acc (bytes_of pat) []) (Topic.split_dots_acc (bytes_of key) []).
-Proof. exact bridge_topic_matches_split. Qed.
-Print Assumptions Bridge_topic_matches_split.
+(* on ALL word lists the broker model's fuelled matcher is matchTopicWords (the row algorithm) *)
+Theorem Bridge_topic_match_words : forall p k,
+  Model.topic_match (S (List.length p + List.length k) * 2) p k = Topic.topic_match_bytes (map bytes_of p) (map bytes_of k).
+Proof. exact bridge_topic_match_words. Qed.
+Print Assumptions Bridge_topic_match_words.
 
-(* and it is MatchTopic's test whenever the routing key is not empty (or the pattern is) *)
-Theorem Bridge_topic_matches : forall pat key, key <> "" \/ pat = "" ->
+(* and the broker model's topic test is MatchTopic's test, for ALL patterns and routing keys *)
+Theorem Bridge_topic_matches : forall pat key,
   Model.topic_matches pat key = Topic.topic_match_bytes (Topic.topic_words (bytes_of pat)) (Topic.topic_words (bytes_of key)).
 Proof. exact bridge_topic_matches. Qed.
 Print Assumptions Bridge_topic_matches.
 
-(* Props/C08.v (C08_topic_bytes) on the broker model: the AMQP word rule *)
-Theorem Bridge_C08_topic : forall pat key, key <> "" \/ pat = "" ->
+(* Props/C08.v (C08_topic_bytes) on the broker model: the AMQP word rule, for ALL patterns and routing keys *)
+Theorem Bridge_C08_topic : forall pat key,
   Model.topic_matches pat key = true <-> Spec.spec_topic (bytes_of pat) (bytes_of key).
 Proof. exact model_topic_spec. Qed.
 Print Assumptions Bridge_C08_topic.
 
-(* DISAGREEMENT D1 (bridge_gap_empty_key).  The empty routing key: topicWords("") is ZERO words in the code
-   (binding.go; Route.topic_words is the code's side, confirmed against the running broker), ONE empty word in the
-   broker model.  A pattern with exactly one `*` (or one empty word) besides `#`s matches the empty key in the
-   broker model and not in the code. *)
-Example bridge_gap_empty_key_words : Model.words "" = [""] /\ Topic.topic_words (bytes_of "") = [].
-Proof. vm_compute. split; reflexivity. Qed.
+(* Former disagreement D1, closed.  The empty routing key: topicWords("") is ZERO words in the code (binding.go;
+   Route.topic_words is the code's side, confirmed against the running broker) and was ONE empty word in the broker
+   model, so that a pattern with exactly one `*` (or one empty word) besides `#`s matched the empty key in the broker
+   model and not in the code.  The broker model's [topic_words] has no word for the empty string now: the two AGREE. *)
+Example bridge_agree_empty_key_words :
+  Model.words "" = [""] /\ Model.topic_words "" = [] /\ Topic.topic_words (bytes_of "") = [].
+Proof. vm_compute. repeat split; reflexivity. Qed.
 
-Example bridge_gap_empty_key :
-  Model.topic_matches "*" "" = true /\
+Example bridge_agree_empty_key :
+  Model.topic_matches "*" "" = false /\
   Topic.topic_match_bytes (Topic.topic_words (bytes_of "*")) (Topic.topic_words (bytes_of "")) = false /\
-  Model.topic_matches "#." "" = true /\
-  Topic.topic_match_bytes (Topic.topic_words (bytes_of "#.")) (Topic.topic_words (bytes_of "")) = false.
+  Model.topic_matches "#." "" = false /\
+  Topic.topic_match_bytes (Topic.topic_words (bytes_of "#.")) (Topic.topic_words (bytes_of "")) = false /\
+  Model.topic_matches "#" "" = true /\
+  Topic.topic_match_bytes (Topic.topic_words (bytes_of "#")) (Topic.topic_words (bytes_of "")) = true /\
+  Model.topic_matches "" "" = true /\
+  Topic.topic_match_bytes (Topic.topic_words (bytes_of "")) (Topic.topic_words (bytes_of "")) = true.
 Proof. vm_compute. repeat split; reflexivity. Qed.
 
 Definition ex_star : Model.exchange :=
   {| Model.e_type := Model.ExTopic; Model.e_durable := false; Model.e_autodel := false; Model.e_internal := false;
      Model.e_system := false; Model.e_bindings := [{| Model.b_queue := "q"; Model.b_key := "*"; Model.b_args := [] |}] |}.
 
-Example bridge_gap_empty_key_exchange :
-  Model.matched_queues false ex_star "" = ["q"] /\
+Example bridge_agree_empty_key_exchange :
+  Model.matched_queues false ex_star "" = [] /\
   Exchange.matched_queues RouteGen.gen_cfg (to_rexchange RouteGen.gen_cfg (bytes_of "t") ex_star)
     {| Exchange.m_exchange := bytes_of "t"; Exchange.m_key := bytes_of ""; Exchange.m_headers := None; Exchange.m_mandatory := false |}
   = Some [] /\
-  (* on a non-empty key the two agree *)
+  (* and on a non-empty key, as before *)
   Model.matched_queues false ex_star "x" = ["q"] /\
   Exchange.matched_queues RouteGen.gen_cfg (to_rexchange RouteGen.gen_cfg (bytes_of "t") ex_star)
     {| Exchange.m_exchange := bytes_of "t"; Exchange.m_key := bytes_of "x"; Exchange.m_headers := None; Exchange.m_mandatory := false |}
   = Some [bytes_of "q"].
 Proof. vm_compute. repeat split; reflexivity. Qed.
 
-(* The same two facts in the form that survives the repair of the broker model.
+(* The same facts for the definitions they were first proved for, kept under their primed names.
    (i) with topicWords as the code has it ([topic_words']: the empty string is zero words) the broker model's
-   matcher is MatchTopic's test, and the AMQP word rule, for ALL patterns and keys *)
+   matcher is MatchTopic's test, and the AMQP word rule, for ALL patterns and keys - and [topic_words'] /
+   [topic_matches'] ARE the broker model's [topic_words] / [topic_matches], for all inputs *)
 Theorem Bridge_topic_words' : forall s,
   map bytes_of (topic_words' s) = Topic.topic_words (bytes_of s) /\
   map bytes_of (topic_words' s) = Spec.spec_words (bytes_of s).
@@ -220,46 +234,51 @@ Theorem Bridge_C08_topic' : forall pat key,
 Proof. exact model_topic_spec'. Qed.
 Print Assumptions Bridge_C08_topic'.
 
-Theorem Bridge_topic_matches'_conservative : forall pat key, key <> "" \/ pat = "" ->
+Theorem Bridge_topic_matches'_conservative : forall pat key,
   topic_matches' pat key = Model.topic_matches pat key.
 Proof. exact topic_matches'_eq. Qed.
 Print Assumptions Bridge_topic_matches'_conservative.
+
+Theorem Bridge_topic_words'_conservative : forall s, topic_words' s = Model.topic_words s.
+Proof. exact topic_words'_eq. Qed.
+Print Assumptions Bridge_topic_words'_conservative.
 
 Example Bridge_topic_matches'_example :
   topic_matches' "*" "" = false /\ topic_matches' "#" "" = true /\ topic_matches' "" "" = true /\
   topic_matches' "a.#.b" "a.x.y.b" = true /\ topic_matches' "a.*" "a" = false.
 Proof. vm_compute. repeat split; reflexivity. Qed.
 
-(* (ii) parseTopicPattern on the broker model's strings, and exactly when NewBinding fails for an argument-free
-   binding: on a topic exchange, for a malformed pattern *)
+(* (ii) parseTopicPattern is the negation of the broker model's [bad_pattern] ([wf_pattern key] is
+   [negb (Model.bad_pattern key)]), and exactly when NewBinding fails for an argument-free binding: on a topic exchange,
+   for a malformed pattern *)
 Theorem Bridge_pattern_ok : forall key, Topic.pattern_ok (bytes_of key) = wf_pattern key.
 Proof. exact pattern_ok_bytes_of. Qed.
 Print Assumptions Bridge_pattern_ok.
 
 Theorem Bridge_new_binding_fails_iff : forall c q ex key args topic, Cfg.cfg_sane c = true ->
   (args = None \/ exists t, args = Some t /\ Value.lookup (Cfg.c_x_match c) t = None) ->
-  (Exchange.new_binding c q ex (bytes_of key) args topic = None <-> topic = true /\ bad_pattern key = true).
+  (Exchange.new_binding c q ex (bytes_of key) args topic = None <-> topic = true /\ Model.bad_pattern key = true).
 Proof. exact (fun c q ex key args topic H => new_binding_none_iff c q ex key args topic (RouteProofs.cfg_sane_sane c H)). Qed.
 Print Assumptions Bridge_new_binding_fails_iff.
 
 Example Bridge_bad_pattern_example :
-  bad_pattern "a*" = true /\ bad_pattern "a.#b.c" = true /\ bad_pattern "a.*.#.b" = false /\ bad_pattern "" = false /\
-  bad_pattern "*" = false /\ bad_pattern "**" = true.
+  Model.bad_pattern "a*" = true /\ Model.bad_pattern "a.#b.c" = true /\ Model.bad_pattern "a.*.#.b" = false /\
+  Model.bad_pattern "" = false /\ Model.bad_pattern "*" = false /\ Model.bad_pattern "**" = true.
 Proof. vm_compute. repeat split; reflexivity. Qed.
 
 (* the exchange level.  [exchange_rep c exn e rex]: rex has e's type and, binding by binding in the same order, e's
    queue names and routing keys (arguments free).  The two matched lists are EQUAL (same order: both visit the
-   bindings in list order and keep a queue at its first match), for direct, fanout and topic exchanges. *)
+   bindings in list order and keep a queue at its first match), for direct, fanout and topic exchanges and EVERY
+   routing key. *)
 Theorem Bridge_matched_queues : forall c, Cfg.cfg_sane c = true ->
   forall exn e rex key m,
   exchange_rep c exn e rex -> Exchange.m_exchange m = exn -> Exchange.m_key m = bytes_of key ->
   Model.e_type e <> Model.ExHeaders ->
-  (Model.e_type e = Model.ExTopic -> key <> "") ->
   Exchange.matched_queues c rex m = Some (map bytes_of (Model.matched_queues false e key)).
 Proof. exact bridge_matched_queues. Qed.
 Print Assumptions Bridge_matched_queues.
 
-(* ... and with the repaired topic test for EVERY routing key *)
+(* ... and with the primed topic test, which is the broker model's *)
 Theorem Bridge_matched_queues' : forall c, Cfg.cfg_sane c = true ->
   forall exn e rex key m,
   exchange_rep c exn e rex -> Exchange.m_exchange m = exn -> Exchange.m_key m = bytes_of key ->
@@ -268,7 +287,7 @@ Theorem Bridge_matched_queues' : forall c, Cfg.cfg_sane c = true ->
 Proof. exact bridge_matched_queues'. Qed.
 Print Assumptions Bridge_matched_queues'.
 
-Theorem Bridge_matched_queues'_conservative : forall e key, key <> "" ->
+Theorem Bridge_matched_queues'_conservative : forall e key,
   matched_queues' e key = Model.matched_queues false e key.
 Proof. exact matched_queues'_eq. Qed.
 Print Assumptions Bridge_matched_queues'_conservative.
@@ -291,7 +310,6 @@ Theorem Bridge_C08_route_eq_spec : forall c, Cfg.cfg_sane c = true ->
   forall exn e rex key m,
   exchange_rep c exn e rex -> Exchange.m_exchange m = exn -> Exchange.m_key m = bytes_of key ->
   Model.e_type e <> Model.ExHeaders ->
-  (Model.e_type e = Model.ExTopic -> key <> "") ->
   Forall (Spec.binding_wf c (kind_of_type (Model.e_type e))) (Exchange.ex_bindings rex) ->
   NoDup (Model.matched_queues false e key) /\
   forall q, In q (Model.matched_queues false e key) <->
@@ -325,9 +343,42 @@ Theorem Bridge_headers_nil_arguments_not_bridged : forall c, Cfg.cfg_sane c = tr
 Proof. exact route_headers_nil_args_match. Qed.
 Print Assumptions Bridge_headers_nil_arguments_not_bridged.
 
-(* DISAGREEMENT D2 (bridge_gap_malformed_pattern).  queue.bind on a topic exchange with a wildcard inside a word:
-   NewBinding refuses the pattern (channel error 406, server/queueMethods.go; Route.new_binding = None is the code's
-   side, confirmed against the running broker) - the broker model answers bind-ok and keeps the binding. *)
+(* Former disagreement D2, closed.  queue.bind on a topic exchange with a wildcard inside a word: NewBinding refuses
+   the pattern (channel error 406, server/queueMethods.go; Route.new_binding = None is the code's side, confirmed
+   against the running broker).  The broker model answered bind-ok and kept the binding; it refuses now, exactly when
+   NewBinding fails.  Past the checks that come first (the exchange exists and is not the default one, the queue
+   exists and is not locked), for a bind without arguments: *)
+Theorem Bridge_bind_refused_iff : forall c, Cfg.cfg_sane c = true ->
+  forall cfg fx s cn h ch q exn key nowait e qu,
+  Model.get_chan s cn h = Some ch ->
+  Model.alookup Model.seqb exn (Model.exchanges s) = Some e -> exn <> "" ->
+  Model.queue_found s q = Some qu -> Model.locked qu cn = false ->
+  (snd (Model.handle_method cfg fx s cn h (Model.MQBind q exn key [] nowait)) = Some (Model.ChanErr Model.PreconditionFailed 50 20)
+   <-> Exchange.new_binding c (bytes_of q) (bytes_of exn) (bytes_of key) (Some []) (is_topic (Model.e_type e)) = None) /\
+  (snd (Model.handle_method cfg fx s cn h (Model.MQBind q exn key [] nowait)) = None
+   <-> Exchange.new_binding c (bytes_of q) (bytes_of exn) (bytes_of key) (Some []) (is_topic (Model.e_type e)) <> None).
+Proof. exact (fun c H => model_bind_refused_iff c (RouteProofs.cfg_sane_sane c H)). Qed.
+Print Assumptions Bridge_bind_refused_iff.
+
+(* the error of the broker model's queue.bind / queue.unbind, in closed form *)
+Theorem Bridge_bind_result : forall cfg fx s cn h ch q exn key nowait e qu,
+  Model.get_chan s cn h = Some ch ->
+  Model.alookup Model.seqb exn (Model.exchanges s) = Some e -> exn <> "" ->
+  Model.queue_found s q = Some qu -> Model.locked qu cn = false ->
+  snd (Model.handle_method cfg fx s cn h (Model.MQBind q exn key [] nowait)) =
+  if is_topic (Model.e_type e) && Model.bad_pattern key then Some (Model.ChanErr Model.PreconditionFailed 50 20) else None.
+Proof. exact model_bind_result. Qed.
+Print Assumptions Bridge_bind_result.
+
+Theorem Bridge_unbind_result : forall cfg fx s cn h ch q exn key e qu,
+  Model.get_chan s cn h = Some ch ->
+  Model.alookup Model.seqb exn (Model.exchanges s) = Some e ->
+  Model.queue_found s q = Some qu -> Model.locked qu cn = false ->
+  snd (Model.handle_method cfg fx s cn h (Model.MQUnbind q exn key [])) =
+  if is_topic (Model.e_type e) && Model.bad_pattern key then Some (Model.ChanErr Model.PreconditionFailed 50 50) else None.
+Proof. exact model_unbind_result. Qed.
+Print Assumptions Bridge_unbind_result.
+
 Definition cfg_r : Model.config := {| Model.cfg_rabbit := true; Model.cfg_rollback := true; Model.cfg_release_first := true |}.
 Definition bind_bad_pattern : list Model.label :=
   [Model.LConnect 1; Model.LMethod 1 1 Model.MChannelOpen;
@@ -335,14 +386,29 @@ Definition bind_bad_pattern : list Model.label :=
    Model.LMethod 1 1 (Model.MQDeclare "q" false false false false false);
    Model.LMethod 1 1 (Model.MQBind "q" "t" "a*" [] false)].
 
-Example bridge_gap_malformed_pattern :
+Definition unbind_bad_pattern : list Model.label :=
+  [Model.LConnect 1; Model.LMethod 1 1 Model.MChannelOpen;
+   Model.LMethod 1 1 (Model.MExDeclare "t" "topic" false false false false false);
+   Model.LMethod 1 1 (Model.MQDeclare "q" false false false false false);
+   Model.LMethod 1 1 (Model.MQBind "q" "t" "a.*" [] false);
+   Model.LMethod 1 1 (Model.MQUnbind "q" "t" "a*" [])].
+
+Example bridge_agree_malformed_pattern :
+  (* bind: the channel is closed with 406 (class 50, method 20) and no binding is made - NewBinding fails *)
   snd (Model.run cfg_r Model.all_fixed (Model.init cfg_r) bind_bad_pattern)
-  = [(1, 1, Model.SChannelOpenOk); (1, 1, Model.SExDeclareOk); (1, 1, Model.SQDeclareOk "q" 0 0); (1, 1, Model.SQBindOk)] /\
+  = [(1, 1, Model.SChannelOpenOk); (1, 1, Model.SExDeclareOk); (1, 1, Model.SQDeclareOk "q" 0 0); (1, 1, Model.SChannelClose 406 50 20)] /\
   option_map Model.e_bindings (Model.alookup Model.seqb "t" (Model.exchanges (fst (Model.run cfg_r Model.all_fixed (Model.init cfg_r) bind_bad_pattern))))
-  = Some [{| Model.b_queue := "q"; Model.b_key := "a*"; Model.b_args := [] |}] /\
+  = Some [] /\
   Exchange.new_binding RouteGen.gen_cfg (bytes_of "q") (bytes_of "t") (bytes_of "a*") (Some []) true = None /\
-  Topic.pattern_ok (bytes_of "a*") = false.
-Proof. vm_compute. repeat split; reflexivity. Qed.
+  Topic.pattern_ok (bytes_of "a*") = false /\ Model.bad_pattern "a*" = true /\
+  (* a well-formed pattern is bound on both sides; unbind of the malformed one: 406 (class 50, method 50), binding kept *)
+  snd (Model.run cfg_r Model.all_fixed (Model.init cfg_r) unbind_bad_pattern)
+  = [(1, 1, Model.SChannelOpenOk); (1, 1, Model.SExDeclareOk); (1, 1, Model.SQDeclareOk "q" 0 0); (1, 1, Model.SQBindOk);
+     (1, 1, Model.SChannelClose 406 50 50)] /\
+  option_map Model.e_bindings (Model.alookup Model.seqb "t" (Model.exchanges (fst (Model.run cfg_r Model.all_fixed (Model.init cfg_r) unbind_bad_pattern))))
+  = Some [{| Model.b_queue := "q"; Model.b_key := "a.*"; Model.b_args := [] |}] /\
+  Exchange.new_binding RouteGen.gen_cfg (bytes_of "q") (bytes_of "t") (bytes_of "a.*") (Some []) true <> None.
+Proof. vm_compute. repeat split; try reflexivity. discriminate. Qed.
 
 (* non-vacuity of the exchange-level theorems: a topic exchange with two bindings for one queue *)
 Definition ex_demo : Model.exchange :=
